@@ -368,6 +368,8 @@ def gen_contest(rng, tier, like=None):
         out["direct"] = True        # make_plurality_assertions / make_supermajority_assertion called directly
     if rng.chance(0.12):
         out["votes_type"] = rng.choice(["defaultdict", "defaultdict", "ordered"])
+    if rng.chance(0.12):
+        out["np_marks"] = True      # marks held as numpy scalars (np.int64(5), np.bool_(True))
     return out
 
 
@@ -580,6 +582,11 @@ def _cvrs(case):
     from shangrla.core.Audit import CVR
     out = CVR.from_dict([{"id": c["id"], "votes": {k: {cand: v for cand, v in m} for k, m in c["votes"]}}
                          for c in case["cvrs"]])
+    if case.get("np_marks") or _NP_MARKS[0]:
+        import numpy as np
+        conv = lambda x: (np.bool_(x) if isinstance(x, bool) else np.int64(x) if isinstance(x, int) else x)
+        for c in out:
+            c.votes = {k: {cand: conv(x) for cand, x in v.items()} for k, v in c.votes.items()}
     vt = case.get("votes_type") or _VOTES_TYPE[0]
     if vt:
         # the vote dict as another Mapping type (records assembled with collections.defaultdict / OrderedDict): reading a
@@ -594,6 +601,7 @@ def _cvrs(case):
 
 
 _VOTES_TYPE = [None]
+_NP_MARKS = [False]
 
 
 def _try(f):
@@ -654,10 +662,12 @@ def _amend(cvrs, ops):
 
 def impl_contest(case):
     _VOTES_TYPE[0] = case.get("votes_type")
+    _NP_MARKS[0] = bool(case.get("np_marks"))
     try:
         return _impl_contest(case)
     finally:
         _VOTES_TYPE[0] = None
+        _NP_MARKS[0] = False
 
 
 def _impl_contest(case):
